@@ -186,6 +186,9 @@ def build(variant):
 def digest(variant, k):
     import random
     import pyrtl
+    allsims = variant.endswith('+allsims')
+    if allsims:
+        variant = variant[:-len('+allsims')]
     _install_gap(k)
     block = build(variant)
     out = {}
@@ -204,6 +207,17 @@ def digest(variant, k):
     tr = sim.tracer
     outs = sorted(w.name for w in block.wirevector_subset(pyrtl.Output))
     out['outputs'] = json.dumps({n: list(tr.trace[n]) for n in outs})
+    if allsims:
+        # the other two simulators on a fresh build: same Output traces in every process, equal to Simulation's
+        for sname in ('FastSimulation', 'CompiledSimulation'):
+            b3 = build(variant)
+            s3 = getattr(pyrtl, sname)(tracer=pyrtl.SimulationTrace(block=b3), block=b3)
+            for st_ in steps:
+                s3.step(st_)
+            got3 = json.dumps({n: list(s3.tracer.trace[n]) for n in outs})
+            out['outputs_%s' % sname] = got3
+            out['%s_preserves_outputs' % sname] = str(got3 == json.dumps(
+                {n: list(_plain_outputs(variant, steps)[n]) for n in outs}))
     out['trace'] = json.dumps({k_: list(v) for k_, v in sorted(tr.trace.items())})
     for add_reset in (True, False, 'asynchronous'):
         f = io.StringIO()
@@ -243,6 +257,15 @@ def digest(variant, k):
             out['%s_preserves_outputs' % pname] = str(got == ref or got == 'PyrtlError')
     return {k_: (v if k_.endswith('_preserves_outputs') else hashlib.sha256(v.encode()).hexdigest()[:16])
             for k_, v in out.items()}, out
+
+
+def _plain_outputs(variant, steps):
+    import pyrtl
+    b0 = build(variant)
+    s0 = pyrtl.Simulation(tracer=pyrtl.SimulationTrace(block=b0), block=b0)
+    for st_ in steps:
+        s0.step(st_)
+    return s0.tracer.trace
 
 
 def readonly(design):
